@@ -1,2 +1,631 @@
 (* Linearizability of the list-bin protocol (C01, C08 stage S1). *)
 From Flurry Require Import Model.BinProto Proofs.LinProofs.
+From Coq Require Import List Bool Lia Permutation NArith Arith.
+From Hammer Require Import Tactics.
+Import ListNotations.
+Local Open Scope nat_scope.
+
+(* ====================================================================== *)
+(* Layer 0: lists                                                          *)
+(* ====================================================================== *)
+
+Lemma upd_list_cons {A} (a : A) l i x : upd_list (a :: l) (S i) x = a :: upd_list l i x.
+Proof. reflexivity. Qed.
+
+Lemma upd_list_length {A} (l : list A) i x : i < length l -> length (upd_list l i x) = length l.
+Proof.
+  revert i. induction l as [|a l IH]; intros [|i] Hi; cbn [length] in *; try lia.
+  - reflexivity.
+  - rewrite upd_list_cons. cbn [length]. rewrite IH; lia.
+Qed.
+
+Lemma nth_upd_same {A} (l : list A) i x d : i < length l -> nth i (upd_list l i x) d = x.
+Proof.
+  revert i. induction l as [|a l IH]; intros [|i] Hi; cbn [length] in *; try lia.
+  - reflexivity.
+  - rewrite upd_list_cons. cbn [nth]. apply IH. lia.
+Qed.
+
+Lemma nth_upd_other {A} (l : list A) i j x d : i < length l -> j <> i -> nth j (upd_list l i x) d = nth j l d.
+Proof.
+  revert i j. induction l as [|a l IH]; intros [|i] [|j] Hi Hj; cbn [length] in *; try lia; try reflexivity.
+  rewrite upd_list_cons. cbn [nth]. apply IH; lia.
+Qed.
+
+Lemma nth_app_new {A} (l : list A) x d : nth (length l) (l ++ [x]) d = x.
+Proof. rewrite app_nth2 by lia. rewrite Nat.sub_diag. reflexivity. Qed.
+
+Lemma NoDup_map_inj {A B} (f : A -> B) l : NoDup (map f l) -> NoDup l.
+Proof.
+  induction l as [|a l IH]; cbn; intros H; [constructor|].
+  inversion H as [|? ? Hn Hd]; subst. constructor; [|auto].
+  intros Hin. apply Hn. apply in_map. exact Hin.
+Qed.
+
+Lemma NoDup_bounded_length (l : list nat) n : NoDup l -> Forall (fun a => a < n) l -> length l <= n.
+Proof.
+  intros Hnd Hf. rewrite <- (seq_length n 0). apply NoDup_incl_length; [exact Hnd|].
+  intros a Ha. rewrite Forall_forall in Hf. apply in_seq. specialize (Hf a Ha). lia.
+Qed.
+
+Lemma NoDup_app_single {A} (l : list A) x : NoDup l /\ ~ In x l -> NoDup (l ++ [x]).
+Proof.
+  intros [Hn Hx]. induction l as [|a l IH]; cbn; [constructor; [intros []|constructor]|].
+  inversion Hn as [|? ? Ha Hn']; subst. constructor.
+  - intros Hin. apply in_app_or in Hin as [Hin|[->|[]]]; [contradiction|]. apply Hx. left. reflexivity.
+  - apply IH; [exact Hn'|]. intros Hin. apply Hx. right. exact Hin.
+Qed.
+
+Lemma NoDup_app_l {A} (a b : list A) : NoDup (a ++ b) -> NoDup a.
+Proof.
+  induction a as [|x a IH]; cbn; intros H; [constructor|]. inversion H as [|? ? Hx Hn]; subst.
+  constructor; [|auto]. intros Hin. apply Hx. apply in_or_app. left. exact Hin.
+Qed.
+Lemma NoDup_app_r {A} (a b : list A) : NoDup (a ++ b) -> NoDup b.
+Proof. induction a as [|x a IH]; cbn; intros H; [exact H|]. inversion H; subst. auto. Qed.
+Lemma NoDup_app_disj {A} (a b : list A) x : NoDup (a ++ b) -> In x a -> In x b -> False.
+Proof.
+  induction a as [|y a IH]; cbn; intros H Ha Hb; [contradiction|]. inversion H as [|? ? Hy Hn]; subst.
+  destruct Ha as [->|Ha]; [apply Hy; apply in_or_app; right; exact Hb|]. eapply IH; eassumption.
+Qed.
+
+(* ====================================================================== *)
+(* Layer 0b: shared-memory accessors under updates                        *)
+(* ====================================================================== *)
+
+Definition dcell := mkCell 0 0 None.
+Definition cellh (hp : list cell) (a : nat) : cell := nth a hp dcell.
+Lemma cell_at_cellh s a : cell_at s a = cellh (heap s) a.
+Proof. reflexivity. Qed.
+
+Lemma cell_at_set_cell_same s a c : a < length (heap s) -> cell_at (set_cell s a c) a = c.
+Proof. intros H. unfold cell_at, set_cell. cbn. apply nth_upd_same. exact H. Qed.
+Lemma cell_at_set_cell_other s a c b : a < length (heap s) -> b <> a -> cell_at (set_cell s a c) b = cell_at s b.
+Proof. intros H Hn. unfold cell_at, set_cell. cbn. apply nth_upd_other; assumption. Qed.
+Lemma bin_at_set_bin_same s i h : i < length (bins s) -> bin_at (set_bin s i h) i = h.
+Proof. intros H. unfold bin_at, set_bin. cbn. apply nth_upd_same. exact H. Qed.
+Lemma bin_at_set_bin_other s i h j : i < length (bins s) -> j <> i -> bin_at (set_bin s i h) j = bin_at s j.
+Proof. intros H Hn. unfold bin_at, set_bin. cbn. apply nth_upd_other; assumption. Qed.
+Lemma lock_at_set_lock_same s a o : a < length (locks s) -> lock_at (set_lock s a o) a = o.
+Proof. intros H. unfold lock_at, set_lock. cbn. apply nth_upd_same. exact H. Qed.
+Lemma lock_at_set_lock_other s a o b : a < length (locks s) -> b <> a -> lock_at (set_lock s a o) b = lock_at s b.
+Proof. intros H Hn. unfold lock_at, set_lock. cbn. apply nth_upd_other; assumption. Qed.
+
+Lemma lock_at_lt s a t : lock_at s a = Some t -> a < length (locks s).
+Proof.
+  unfold lock_at. intros H. destruct (Nat.lt_ge_cases a (length (locks s))) as [Hl|Hl]; [exact Hl|].
+  rewrite nth_overflow in H by exact Hl. discriminate.
+Qed.
+Lemma bin_at_lt s i h : bin_at s i = Some h -> i < length (bins s).
+Proof.
+  unfold bin_at. intros H. destruct (Nat.lt_ge_cases i (length (bins s))) as [Hl|Hl]; [exact Hl|].
+  rewrite nth_overflow in H by exact Hl. discriminate.
+Qed.
+
+Lemma cell_at_alloc_old s k v a : a < length (heap s) -> cell_at (fst (alloc s k v)) a = cell_at s a.
+Proof. intros H. unfold cell_at, alloc. cbn. apply app_nth1. exact H. Qed.
+Lemma cell_at_alloc_new s k v : cell_at (fst (alloc s k v)) (length (heap s)) = mkCell k v None.
+Proof. unfold cell_at, alloc. cbn. apply nth_app_new. Qed.
+Lemma lock_at_alloc s k v a : length (locks s) = length (heap s) -> lock_at (fst (alloc s k v)) a = lock_at s a.
+Proof.
+  intros HL. unfold lock_at, alloc. cbn.
+  destruct (Nat.lt_ge_cases a (length (locks s))) as [Hl|Hl].
+  - apply app_nth1. exact Hl.
+  - rewrite (nth_overflow (locks s)) by exact Hl.
+    destruct (Nat.eq_dec a (length (locks s))) as [->|Hn].
+    + apply nth_app_new.
+    + apply nth_overflow. rewrite app_length. cbn. lia.
+Qed.
+
+(* ====================================================================== *)
+(* Layer 1: path segments                                                  *)
+(* ====================================================================== *)
+
+Inductive pseg (hp : list cell) : option nat -> list nat -> option nat -> Prop :=
+| pseg_nil p : pseg hp p [] p
+| pseg_cons a l q : pseg hp (cnext (cellh hp a)) l q -> pseg hp (Some a) (a :: l) q.
+
+Lemma pseg_app hp p l1 m l2 q : pseg hp p l1 m -> pseg hp m l2 q -> pseg hp p (l1 ++ l2) q.
+Proof. induction 1 as [|a l m' H IH]; cbn; intros H2; [exact H2|]. constructor. apply IH. exact H2. Qed.
+
+Lemma pseg_app_inv hp l1 : forall p l2 q, pseg hp p (l1 ++ l2) q -> exists m, pseg hp p l1 m /\ pseg hp m l2 q.
+Proof.
+  induction l1 as [|a l1 IH]; cbn; intros p l2 q H.
+  - exists p. split; [constructor|exact H].
+  - inversion H as [|a' l' q' H']; subst. destruct (IH _ _ _ H') as (m & Ha & Hb).
+    exists m. split; [constructor; exact Ha|exact Hb].
+Qed.
+
+Lemma pseg_cons_inv hp p a l q : pseg hp p (a :: l) q -> p = Some a /\ pseg hp (cnext (cellh hp a)) l q.
+Proof. intros H. inversion H; subst. auto. Qed.
+
+Lemma pseg_det hp p l : forall l', pseg hp p l None -> pseg hp p l' None -> l = l'.
+Proof.
+  revert p. induction l as [|a l IH]; intros p l' H1 H2.
+  - inversion H1; subst. inversion H2; subst; reflexivity.
+  - apply pseg_cons_inv in H1 as [-> H1]. inversion H2 as [|a' l2 q' H2']; subst.
+    f_equal. eapply IH; eassumption.
+Qed.
+
+Lemma pseg_agree hp hp' p l q :
+  (forall a, In a l -> cnext (cellh hp' a) = cnext (cellh hp a)) -> pseg hp p l q -> pseg hp' p l q.
+Proof.
+  intros Hag H. induction H as [|a l q H IH]; [constructor|].
+  constructor. rewrite Hag by (left; reflexivity). apply IH. intros b Hb. apply Hag. right. exact Hb.
+Qed.
+
+Lemma pseg_mid hp p pre a l2 : pseg hp p (pre ++ a :: l2) None -> pseg hp (cnext (cellh hp a)) l2 None.
+Proof.
+  intros H. apply pseg_app_inv in H as (m & _ & H). apply pseg_cons_inv in H as [_ H]. exact H.
+Qed.
+
+Lemma pseg_next_some hp q l : pseg hp (Some q) l None -> exists l', l = q :: l'.
+Proof. intros H. inversion H; subst. eauto. Qed.
+Lemma pseg_next_none hp l : pseg hp None l None -> l = [].
+Proof. intros H. inversion H; subst. reflexivity. Qed.
+
+(* ====================================================================== *)
+(* Layer 1: the shared-memory invariant                                    *)
+(* ====================================================================== *)
+Section Inv.
+Variable khash : N -> N.
+Variable nbins : nat.
+Hypothesis nbins_pos : 0 < nbins.
+Notation bini := (bini khash nbins).
+Notation get_thr := BinProto.get_thr.
+Notation step := (step khash nbins).
+Notation run := (run khash nbins).
+
+Lemma bini_lt k : bini k < nbins.
+Proof.
+  unfold BinProto.bini. pose proof (N.mod_upper_bound (khash k) (N.of_nat nbins)) as H. lia.
+Qed.
+
+Definition keyat (s : shared) (a : nat) : N := ckey (cell_at s a).
+
+(* l is the live list of bin i *)
+Definition bin_ok (s : shared) (i : nat) (l : list nat) : Prop :=
+  pseg (heap s) (bin_at s i) l None /\
+  Forall (fun a => a < length (heap s) /\ bini (keyat s a) = i) l /\
+  NoDup (map (keyat s) l).
+
+(* next pointers go to strictly larger, allocated addresses *)
+Definition ptr_inc (s : shared) : Prop :=
+  forall a q, a < length (heap s) -> cnext (cell_at s a) = Some q -> a < q < length (heap s).
+
+Definition sh_inv (s : shared) : Prop :=
+  length (bins s) = nbins /\ length (locks s) = length (heap s) /\ ptr_inc s /\
+  forall i, i < nbins -> exists l, bin_ok s i l.
+
+Lemma bin_ok_det s i l l' : bin_ok s i l -> bin_ok s i l' -> l = l'.
+Proof. intros (H & _) (H' & _). eapply pseg_det; eassumption. Qed.
+
+Lemma bin_ok_nodup s i l : bin_ok s i l -> NoDup l.
+Proof. intros (_ & _ & H). eapply NoDup_map_inj. exact H. Qed.
+
+Lemma bin_ok_in s i l a : bin_ok s i l -> In a l -> a < length (heap s) /\ bini (keyat s a) = i.
+Proof. intros (_ & H & _) Ha. rewrite Forall_forall in H. auto. Qed.
+
+(* a write performed on behalf of bin i: other bins, and cells hashing to other bins, are untouched *)
+Definition frame (s s' : shared) (i : nat) : Prop :=
+  (forall j, j <> i -> bin_at s' j = bin_at s j) /\
+  (forall a, a < length (heap s) -> bini (keyat s a) <> i -> cell_at s' a = cell_at s a) /\
+  (forall a, a < length (heap s) -> keyat s' a = keyat s a) /\
+  length (heap s) <= length (heap s').
+
+Lemma frame_bin_ok s s' i j l : frame s s' i -> j <> i -> bin_ok s j l -> bin_ok s' j l.
+Proof.
+  intros (Fb & Fc & Fk & Fl) Hj (Hp & Hf & Hn). rewrite Forall_forall in Hf.
+  assert (Hcell : forall a, In a l -> cell_at s' a = cell_at s a).
+  { intros a Ha. destruct (Hf a Ha) as [Hlt Hb]. apply Fc; [exact Hlt|]. rewrite Hb. exact Hj. }
+  split; [|split].
+  - rewrite Fb by exact Hj. eapply pseg_agree; [|exact Hp].
+    intros a Ha. rewrite <- !cell_at_cellh. rewrite Hcell by exact Ha. reflexivity.
+  - apply Forall_forall. intros a Ha. destruct (Hf a Ha) as [Hlt Hb]. split; [lia|].
+    unfold keyat. rewrite Hcell by exact Ha. exact Hb.
+  - erewrite map_ext_in; [exact Hn|]. intros a Ha. unfold keyat. rewrite Hcell by exact Ha. reflexivity.
+Qed.
+
+Lemma sh_inv_frame s s' i :
+  sh_inv s -> frame s s' i -> length (bins s') = nbins -> length (locks s') = length (heap s') ->
+  ptr_inc s' -> (exists l, bin_ok s' i l) -> sh_inv s'.
+Proof.
+  intros (Hb & Hl & Hp & Hbins) Hfr Hb' Hl' Hp' Hi. split; [exact Hb'|]. split; [exact Hl'|]. split; [exact Hp'|].
+  intros j Hj. destruct (Nat.eq_dec j i) as [->|Hne]; [exact Hi|].
+  destruct (Hbins j Hj) as (l & Hok). exists l. eapply frame_bin_ok; eassumption.
+Qed.
+
+(* ---------- per-thread invariants ---------- *)
+Definition pred_of (pre : list nat) (pred : option nat) : Prop :=
+  match pred with None => pre = [] | Some p => exists pre', pre = pre' ++ [p] end.
+
+(* thread t holds the lock of the current head h of bin (bini k), has walked over `pre` (no node of
+   which has key k) and is at node p *)
+Definition walking (s : shared) (t : nat) (k : N) (h : nat) (pre : list nat) (p : nat) : Prop :=
+  lock_at s h = Some t /\ bin_at s (bini k) = Some h /\
+  (exists l2, pseg (heap s) (Some h) (pre ++ p :: l2) None) /\
+  Forall (fun a => keyat s a <> k) pre.
+
+Definition pc_inv (s : shared) (t : nat) (p : pc) : Prop :=
+  match p with
+  | PStart _ | GWalk _ _ | PutCas _ _ _ | PDone => True
+  | PutFast k v h => h < length (heap s) /\ keyat s h = k
+  | PutLock _ _ _ h | RmLock _ h | CpLock _ _ h => h < length (heap s)
+  | PutReval _ _ _ h | RmReval _ h | CpReval _ _ h | PutUnlock h _ _ => lock_at s h = Some t
+  | PutWalk k _ _ h p => exists pre, walking s t k h pre p
+  | RmWalk k h pred e | CpWalk k _ h pred e => exists pre, walking s t k h pre e /\ pred_of pre pred
+  | RmFound k h pred e nxt | CpFound k _ h pred e nxt =>
+      exists pre, walking s t k h pre e /\ pred_of pre pred /\ keyat s e = k /\ cnext (cell_at s e) = nxt
+  | RmUnlink k h pred e nxt ev | CpApply k h pred e nxt ev _ =>
+      exists pre, walking s t k h pre e /\ pred_of pre pred /\ keyat s e = k /\ cnext (cell_at s e) = nxt
+                  /\ cval (cell_at s e) = ev
+  end.
+
+(* the mutex a thread holds, according to its pc *)
+Definition held (p : pc) : option nat :=
+  match p with
+  | PutReval _ _ _ h | RmReval _ h | CpReval _ _ h | PutUnlock h _ _
+  | PutWalk _ _ _ h _ | RmWalk _ h _ _ | CpWalk _ _ h _ _ | RmFound _ h _ _ _ | CpFound _ _ h _ _ _
+  | RmUnlink _ h _ _ _ _ | CpApply _ h _ _ _ _ _ => Some h
+  | _ => None
+  end.
+
+Definition put_op (k : N) (v : Z) (no_repl : bool) : opn := if no_repl then OTryInsert k v else OInsert k v.
+
+(* the pc belongs to the operation recorded in `cur` *)
+Definition pc_cur (p : pc) (o : opn) : Prop :=
+  match p with
+  | PStart o' => o = o'
+  | GWalk k _ => o = OGet k
+  | PutCas k v nr | PutLock k v nr _ | PutReval k v nr _ | PutWalk k v nr _ _ => o = put_op k v nr
+  | PutFast k v _ => o = OTryInsert k v
+  | PutUnlock _ _ (Some o') => o = o'
+  | PutUnlock _ _ None => True
+  | RmLock k _ | RmReval k _ | RmWalk k _ _ _ | RmFound k _ _ _ _ | RmUnlink k _ _ _ _ _ => o = ORemove k
+  | CpLock k f _ | CpReval k f _ | CpWalk k f _ _ _ | CpFound k f _ _ _ _ => o = OCompute k f
+  | CpApply k _ _ _ _ seen nv => exists f, o = OCompute k f /\ nv = f seen
+  | PDone => False
+  end.
+
+Definition thr_cur (th : thread) : Prop :=
+  match cur th with Some o => pc_cur (at_ th) o | None => at_ th = PDone end.
+
+Definition binv (c : cfg) : Prop :=
+  sh_inv (sh c) /\
+  (forall t, pc_inv (sh c) t (at_ (get_thr c t)) /\ thr_cur (get_thr c t)) /\
+  (forall a t, lock_at (sh c) a = Some t -> held (at_ (get_thr c t)) = Some a).
+
+Lemma held_lock c t h : binv c -> held (at_ (get_thr c t)) = Some h -> lock_at (sh c) h = Some t.
+Proof.
+  intros (_ & Ht & _) Hh. destruct (Ht t) as [Hpc _].
+  destruct (at_ (get_thr c t)); cbn in Hh; try discriminate; injection Hh as ->; cbn in Hpc;
+    try exact Hpc; try (destruct Hpc as (pre & Hw & _); exact (proj1 Hw)); try (destruct Hpc as (pre & Hw); exact (proj1 Hw)).
+Qed.
+
+(* ---------- stability of a thread's invariant under other threads' writes ---------- *)
+Definition same_bin (s s' : shared) (i : nat) : Prop :=
+  bin_at s' i = bin_at s i /\ forall l a, bin_ok s i l -> In a l -> cell_at s' a = cell_at s a.
+
+Lemma frame_same_bin s s' i j : frame s s' i -> j <> i -> same_bin s s' j.
+Proof.
+  intros (Fb & Fc & _) Hj. split; [apply Fb; exact Hj|].
+  intros l a Hok Ha. destruct (bin_ok_in _ _ _ _ Hok Ha) as [Hlt Hb]. apply Fc; [exact Hlt|]. rewrite Hb. exact Hj.
+Qed.
+
+Lemma walking_list s t k h pre p : sh_inv s -> walking s t k h pre p -> exists l2, bin_ok s (bini k) (pre ++ p :: l2).
+Proof.
+  intros (_ & _ & _ & Hbins) (Hl & Hb & (l2 & Hp) & Hf).
+  destruct (Hbins (bini k) (bini_lt k)) as (l & Hok). exists l2.
+  assert (l = pre ++ p :: l2) as <-; [|exact Hok].
+  destruct Hok as (Hp' & _). rewrite Hb in Hp'. eapply pseg_det; eassumption.
+Qed.
+
+Lemma walking_stable s s' t k h pre p :
+  sh_inv s -> walking s t k h pre p -> lock_at s' h = Some t -> same_bin s s' (bini k) ->
+  walking s' t k h pre p /\ forall a, In a (pre ++ [p]) -> cell_at s' a = cell_at s a.
+Proof.
+  intros Hinv Hw Hl' (Sb & Sc). destruct (walking_list _ _ _ _ _ _ Hinv Hw) as (l2 & Hok).
+  destruct Hw as (Hl & Hb & _ & Hf).
+  assert (Hc : forall a, In a (pre ++ p :: l2) -> cell_at s' a = cell_at s a) by (intros a Ha; eapply Sc; eassumption).
+  split.
+  - split; [exact Hl'|]. split; [rewrite Sb; exact Hb|]. split.
+    + exists l2. destruct Hok as (Hp & _). rewrite Hb in Hp. eapply pseg_agree; [|exact Hp].
+      intros a Ha. rewrite <- !cell_at_cellh, Hc by exact Ha. reflexivity.
+    + rewrite Forall_forall in *. intros a Ha. unfold keyat. rewrite Hc; [apply Hf; exact Ha|].
+      apply in_or_app. left. exact Ha.
+  - intros a Ha. apply Hc. apply in_app_or in Ha as [Ha|[->|[]]]; apply in_or_app; [left; exact Ha|right; left; reflexivity].
+Qed.
+
+Lemma pc_inv_stable s s' t p :
+  sh_inv s ->
+  (forall a, lock_at s a = Some t -> lock_at s' a = Some t) ->
+  (forall k h, bin_at s (bini k) = Some h -> lock_at s h = Some t -> same_bin s s' (bini k)) ->
+  length (heap s) <= length (heap s') ->
+  (forall a, a < length (heap s) -> keyat s' a = keyat s a) ->
+  pc_inv s t p -> pc_inv s' t p.
+Proof.
+  intros Hinv HL HB Hlen Hkey Hp.
+  assert (HW : forall k h pre e, walking s t k h pre e ->
+            walking s' t k h pre e /\ forall a, In a (pre ++ [e]) -> cell_at s' a = cell_at s a).
+  { intros k h pre e Hw. eapply walking_stable; [exact Hinv|exact Hw| |].
+    - apply HL. exact (proj1 Hw).
+    - destruct Hw as (Hl & Hb & _). eapply HB; eassumption. }
+  assert (HE : forall pre e, (forall a, In a (pre ++ [e]) -> cell_at s' a = cell_at s a) -> cell_at s' e = cell_at s e).
+  { intros pre e H. apply H. apply in_or_app. right. left. reflexivity. }
+  destruct p; cbn in *; try exact I; try (apply HL; exact Hp); try lia.
+  - destruct Hp as [Hlt Hk]. split; [lia|]. rewrite Hkey by exact Hlt. exact Hk.
+  - destruct Hp as (pre & Hw). exists pre. apply (HW _ _ _ _ Hw).
+  - destruct Hp as (pre & Hw & Hpr). exists pre. split; [apply (HW _ _ _ _ Hw)|exact Hpr].
+  - destruct Hp as (pre & Hw & Hpr & Hk & Hn). exists pre. destruct (HW _ _ _ _ Hw) as [Hw' Hc].
+    unfold keyat. rewrite (HE _ _ Hc). auto.
+  - destruct Hp as (pre & Hw & Hpr & Hk & Hn & Hv). exists pre. destruct (HW _ _ _ _ Hw) as [Hw' Hc].
+    unfold keyat. rewrite (HE _ _ Hc). auto.
+  - destruct Hp as (pre & Hw & Hpr). exists pre. split; [apply (HW _ _ _ _ Hw)|exact Hpr].
+  - destruct Hp as (pre & Hw & Hpr & Hk & Hn). exists pre. destruct (HW _ _ _ _ Hw) as [Hw' Hc].
+    unfold keyat. rewrite (HE _ _ Hc). auto.
+  - destruct Hp as (pre & Hw & Hpr & Hk & Hn & Hv). exists pre. destruct (HW _ _ _ _ Hw) as [Hw' Hc].
+    unfold keyat. rewrite (HE _ _ Hc). auto.
+Qed.
+
+(* ---------- the five kinds of writes ---------- *)
+Definition alloc_sh (s : shared) (k : N) (v : Z) : shared :=
+  mkSh (heap s ++ [mkCell k v None]) (bins s) (locks s ++ [None]).
+Lemma alloc_eq s k v : alloc s k v = (alloc_sh s k v, length (heap s)).
+Proof. reflexivity. Qed.
+Lemma cell_alloc_old s k v a : a < length (heap s) -> cell_at (alloc_sh s k v) a = cell_at s a.
+Proof. apply cell_at_alloc_old. Qed.
+Lemma cell_alloc_new s k v : cell_at (alloc_sh s k v) (length (heap s)) = mkCell k v None.
+Proof. apply cell_at_alloc_new. Qed.
+Lemma lock_alloc s k v a : length (locks s) = length (heap s) -> lock_at (alloc_sh s k v) a = lock_at s a.
+Proof. apply lock_at_alloc. Qed.
+Lemma heap_alloc_len s k v : length (heap (alloc_sh s k v)) = S (length (heap s)).
+Proof. cbn. rewrite app_length. cbn. lia. Qed.
+Lemma locks_alloc_len s k v : length (locks (alloc_sh s k v)) = S (length (locks s)).
+Proof. cbn. rewrite app_length. cbn. lia. Qed.
+
+(* (1) swap the value of an allocated node *)
+Definition swap_sh (s : shared) (p : nat) (v : Z) : shared :=
+  set_cell s p (mkCell (ckey (cell_at s p)) v (cnext (cell_at s p))).
+
+Lemma swap_cell s p v a : p < length (heap s) ->
+  cell_at (swap_sh s p v) a = if Nat.eqb a p then mkCell (keyat s p) v (cnext (cell_at s p)) else cell_at s a.
+Proof.
+  intros Hp. unfold swap_sh. destruct (Nat.eqb_spec a p) as [->|Hn].
+  - rewrite cell_at_set_cell_same by exact Hp. reflexivity.
+  - apply cell_at_set_cell_other; assumption.
+Qed.
+Lemma swap_key s p v a : p < length (heap s) -> keyat (swap_sh s p v) a = keyat s a.
+Proof. intros Hp. unfold keyat at 1. rewrite swap_cell by exact Hp. destruct (Nat.eqb_spec a p) as [->|]; reflexivity. Qed.
+Lemma swap_next s p v a : p < length (heap s) -> cnext (cell_at (swap_sh s p v) a) = cnext (cell_at s a).
+Proof. intros Hp. rewrite swap_cell by exact Hp. destruct (Nat.eqb_spec a p) as [->|]; reflexivity. Qed.
+Lemma swap_len s p v : p < length (heap s) -> length (heap (swap_sh s p v)) = length (heap s).
+Proof. intros Hp. unfold swap_sh, set_cell. cbn. apply upd_list_length. exact Hp. Qed.
+
+Lemma swap_bin_ok s p v j l : p < length (heap s) -> bin_ok s j l -> bin_ok (swap_sh s p v) j l.
+Proof.
+  intros Hp (Hs & Hf & Hn). split; [|split].
+  - change (bin_at (swap_sh s p v) j) with (bin_at s j). eapply pseg_agree; [|exact Hs].
+    intros a _. rewrite <- !cell_at_cellh. apply swap_next. exact Hp.
+  - rewrite swap_len by exact Hp. eapply Forall_impl; [|exact Hf]. cbn. intros a [Ha Hb].
+    rewrite swap_key by exact Hp. auto.
+  - erewrite map_ext; [exact Hn|]. intros a. apply swap_key. exact Hp.
+Qed.
+
+Lemma swap_sh_inv s p v : p < length (heap s) -> sh_inv s -> sh_inv (swap_sh s p v).
+Proof.
+  intros Hp (Hb & Hl & Hi & Hbins). split; [exact Hb|]. split; [|split].
+  - rewrite swap_len by exact Hp. exact Hl.
+  - intros a q Ha Hq. rewrite swap_len in * by exact Hp. rewrite swap_next in Hq by exact Hp. auto.
+  - intros i Hi'. destruct (Hbins i Hi') as (l & Hok). exists l. apply swap_bin_ok; assumption.
+Qed.
+
+Lemma swap_frame s p v : p < length (heap s) -> frame s (swap_sh s p v) (bini (keyat s p)).
+Proof.
+  intros Hp. split; [reflexivity|]. split; [|split].
+  - intros a Ha Hb. rewrite swap_cell by exact Hp. destruct (Nat.eqb_spec a p) as [->|]; [contradiction|reflexivity].
+  - intros a _. apply swap_key. exact Hp.
+  - rewrite swap_len by exact Hp. lia.
+Qed.
+
+(* (2) append a fresh node after the tail p *)
+Definition append_sh (s : shared) (p : nat) (k : N) (v : Z) : shared :=
+  set_cell (alloc_sh s k v) p (mkCell (ckey (cell_at s p)) (cval (cell_at s p)) (Some (length (heap s)))).
+
+Lemma append_cell s p k v a : p < length (heap s) ->
+  cell_at (append_sh s p k v) a =
+    if Nat.eqb a p then mkCell (keyat s p) (cval (cell_at s p)) (Some (length (heap s)))
+    else if Nat.eqb a (length (heap s)) then mkCell k v None else cell_at s a.
+Proof.
+  intros Hp. unfold append_sh. pose proof (heap_alloc_len s k v) as HL.
+  destruct (Nat.eqb_spec a p) as [->|Hn].
+  - rewrite cell_at_set_cell_same by lia. reflexivity.
+  - rewrite cell_at_set_cell_other by (try lia; exact Hn).
+    destruct (Nat.eqb_spec a (length (heap s))) as [->|Hn2]; [apply cell_alloc_new|].
+    unfold cell_at, alloc_sh. cbn. destruct (Nat.lt_ge_cases a (length (heap s))) as [Hlt|Hge].
+    + apply app_nth1. exact Hlt.
+    + rewrite !nth_overflow; [reflexivity|lia|rewrite app_length; cbn; lia].
+Qed.
+Lemma append_len s p k v : p < length (heap s) -> length (heap (append_sh s p k v)) = S (length (heap s)).
+Proof.
+  intros Hp. unfold append_sh, set_cell. cbn [heap]. rewrite upd_list_length; [apply heap_alloc_len|].
+  rewrite heap_alloc_len. lia.
+Qed.
+Lemma append_key s p k v a : p < length (heap s) -> a < length (heap s) -> keyat (append_sh s p k v) a = keyat s a.
+Proof.
+  intros Hp Ha. unfold keyat at 1. rewrite append_cell by exact Hp.
+  destruct (Nat.eqb_spec a p) as [->|]; [reflexivity|]. destruct (Nat.eqb_spec a (length (heap s))); [lia|reflexivity].
+Qed.
+
+Lemma append_frame s p k v : p < length (heap s) -> frame s (append_sh s p k v) (bini (keyat s p)).
+Proof.
+  intros Hp. split; [reflexivity|]. split; [|split].
+  - intros a Ha Hb. rewrite append_cell by exact Hp. destruct (Nat.eqb_spec a p) as [->|]; [contradiction|].
+    destruct (Nat.eqb_spec a (length (heap s))); [lia|reflexivity].
+  - intros a Ha. apply append_key; assumption.
+  - rewrite append_len by exact Hp. lia.
+Qed.
+
+Lemma append_ptr_inc s p k v : p < length (heap s) -> ptr_inc s -> ptr_inc (append_sh s p k v).
+Proof.
+  intros Hp Hi a q Ha Hq. rewrite append_len in * by exact Hp. rewrite append_cell in Hq by exact Hp.
+  destruct (Nat.eqb_spec a p) as [->|Hn]; cbn in Hq.
+  - injection Hq as <-. lia.
+  - destruct (Nat.eqb_spec a (length (heap s))) as [->|Hn2]; cbn in Hq; [discriminate|].
+    assert (a < length (heap s)) as Ha' by lia. specialize (Hi a q Ha' Hq). lia.
+Qed.
+
+Lemma append_bin_ok s l p k v :
+  bin_ok s (bini k) (l ++ [p]) -> Forall (fun a => keyat s a <> k) (l ++ [p]) ->
+  bin_ok (append_sh s p k v) (bini k) ((l ++ [p]) ++ [length (heap s)]).
+Proof.
+  intros Hok Hk. pose proof (bin_ok_nodup _ _ _ Hok) as Hnd.
+  assert (Hp : p < length (heap s)). { eapply bin_ok_in; [exact Hok|]. apply in_or_app. right. left. reflexivity. }
+  destruct Hok as (Hs & Hf & Hn).
+  assert (Hold : forall a, In a l -> cell_at (append_sh s p k v) a = cell_at s a).
+  { intros a Ha. rewrite append_cell by exact Hp.
+    destruct (Nat.eqb_spec a p) as [->|Hne].
+    - exfalso. apply NoDup_remove_2 in Hnd. rewrite app_nil_r in Hnd. contradiction.
+    - rewrite Forall_forall in Hf. assert (a < length (heap s)) by (apply Hf; apply in_or_app; left; exact Ha).
+      destruct (Nat.eqb_spec a (length (heap s))); [lia|reflexivity]. }
+  split; [|split].
+  - change (bin_at (append_sh s p k v) (bini k)) with (bin_at s (bini k)).
+    apply pseg_app_inv in Hs as (m & H1 & H2). apply pseg_cons_inv in H2 as [-> H2].
+    eapply pseg_app; [eapply pseg_app|].
+    + eapply pseg_agree; [|exact H1]. intros a Ha. rewrite <- !cell_at_cellh, Hold by exact Ha. reflexivity.
+    + constructor. rewrite <- cell_at_cellh, append_cell, Nat.eqb_refl by exact Hp. cbn. constructor.
+    + constructor. rewrite <- cell_at_cellh, append_cell by exact Hp.
+      destruct (Nat.eqb_spec (length (heap s)) p); [lia|]. rewrite Nat.eqb_refl. cbn. constructor.
+  - rewrite append_len by exact Hp. apply Forall_app. split.
+    + eapply Forall_impl; [|exact Hf]. cbn. intros a [Ha Hb]. rewrite append_key by assumption. split; [lia|exact Hb].
+    + constructor; [|constructor]. split; [lia|]. unfold keyat. rewrite append_cell by exact Hp.
+      destruct (Nat.eqb_spec (length (heap s)) p); [lia|]. rewrite Nat.eqb_refl. reflexivity.
+  - rewrite map_app. cbn [map].
+    assert (Hk1 : keyat (append_sh s p k v) (length (heap s)) = k).
+    { unfold keyat. rewrite append_cell by exact Hp. destruct (Nat.eqb_spec (length (heap s)) p); [lia|].
+      rewrite Nat.eqb_refl. reflexivity. }
+    assert (Hm : map (keyat (append_sh s p k v)) (l ++ [p]) = map (keyat s) (l ++ [p])).
+    { apply map_ext_in. intros a Ha. apply append_key; [exact Hp|]. rewrite Forall_forall in Hf. apply Hf. exact Ha. }
+    rewrite Hm, Hk1. apply NoDup_app_single. split; [exact Hn|].
+    intros Hin. apply in_map_iff in Hin as (a & Hka & Ha). rewrite Forall_forall in Hk. exact (Hk a Ha Hka).
+Qed.
+
+(* (3) unlink the head of bin i *)
+Lemma unlink_head_bin_ok s i e l2 :
+  i < length (bins s) -> bin_ok s i (e :: l2) -> bin_ok (set_bin s i (cnext (cell_at s e))) i l2.
+Proof.
+  intros Hi (Hs & Hf & Hn). split; [|split].
+  - rewrite bin_at_set_bin_same by exact Hi. apply pseg_cons_inv in Hs as [_ Hs]. exact Hs.
+  - inversion Hf; subst. assumption.
+  - cbn in Hn. inversion Hn; subst. assumption.
+Qed.
+Lemma set_bin_frame s i o : i < length (bins s) -> frame s (set_bin s i o) i.
+Proof.
+  intros Hi. split; [|split; [|split]].
+  - intros j Hj. apply bin_at_set_bin_other; assumption.
+  - reflexivity.
+  - reflexivity.
+  - cbn. lia.
+Qed.
+
+(* (4) unlink e by redirecting its predecessor pr *)
+Definition redirect_sh (s : shared) (pr : nat) (nxt : option nat) : shared :=
+  set_cell s pr (mkCell (ckey (cell_at s pr)) (cval (cell_at s pr)) nxt).
+
+Lemma redirect_cell s pr nxt a : pr < length (heap s) ->
+  cell_at (redirect_sh s pr nxt) a =
+    if Nat.eqb a pr then mkCell (keyat s pr) (cval (cell_at s pr)) nxt else cell_at s a.
+Proof.
+  intros Hp. unfold redirect_sh. destruct (Nat.eqb_spec a pr) as [->|Hn].
+  - rewrite cell_at_set_cell_same by exact Hp. reflexivity.
+  - apply cell_at_set_cell_other; assumption.
+Qed.
+Lemma redirect_key s pr nxt a : pr < length (heap s) -> keyat (redirect_sh s pr nxt) a = keyat s a.
+Proof. intros Hp. unfold keyat at 1. rewrite redirect_cell by exact Hp. destruct (Nat.eqb_spec a pr) as [->|]; reflexivity. Qed.
+Lemma redirect_len s pr nxt : pr < length (heap s) -> length (heap (redirect_sh s pr nxt)) = length (heap s).
+Proof. intros Hp. unfold redirect_sh, set_cell. cbn. apply upd_list_length. exact Hp. Qed.
+Lemma redirect_frame s pr nxt : pr < length (heap s) -> frame s (redirect_sh s pr nxt) (bini (keyat s pr)).
+Proof.
+  intros Hp. split; [reflexivity|]. split; [|split].
+  - intros a Ha Hb. rewrite redirect_cell by exact Hp. destruct (Nat.eqb_spec a pr) as [->|]; [contradiction|reflexivity].
+  - intros a _. apply redirect_key. exact Hp.
+  - rewrite redirect_len by exact Hp. lia.
+Qed.
+
+Lemma unlink_pred_bin_ok s i pre pr e l2 :
+  bin_ok s i (pre ++ pr :: e :: l2) ->
+  bin_ok (redirect_sh s pr (cnext (cell_at s e))) i (pre ++ pr :: l2).
+Proof.
+  intros Hok. pose proof (bin_ok_nodup _ _ _ Hok) as Hnd.
+  assert (Hp : pr < length (heap s)). { eapply bin_ok_in; [exact Hok|]. apply in_or_app. right. left. reflexivity. }
+  destruct Hok as (Hs & Hf & Hn).
+  set (s' := redirect_sh s pr (cnext (cell_at s e))).
+  assert (Hold : forall a, a <> pr -> cell_at s' a = cell_at s a).
+  { intros a Ha. unfold s'. rewrite redirect_cell by exact Hp. destruct (Nat.eqb_spec a pr); [contradiction|reflexivity]. }
+  assert (Hpre : ~ In pr pre). { apply NoDup_remove_2 in Hnd. intros Hin. apply Hnd. apply in_or_app. left. exact Hin. }
+  assert (Hl2 : ~ In pr l2). { apply NoDup_remove_2 in Hnd. intros Hin. apply Hnd. apply in_or_app. right. right. exact Hin. }
+  split; [|split].
+  - change (bin_at s' i) with (bin_at s i).
+    apply pseg_app_inv in Hs as (m & H1 & H2). apply pseg_cons_inv in H2 as [-> H2].
+    apply pseg_cons_inv in H2 as [_ H2].
+    eapply pseg_app.
+    + eapply pseg_agree; [|exact H1]. intros a Ha. rewrite <- !cell_at_cellh, Hold; [reflexivity|]. intros ->. contradiction.
+    + assert (Hpr : cnext (cell_at s' pr) = cnext (cell_at s e)).
+      { unfold s'. rewrite redirect_cell, Nat.eqb_refl by exact Hp. reflexivity. }
+      constructor. rewrite <- cell_at_cellh, Hpr.
+      eapply pseg_agree; [|exact H2]. intros a Ha. rewrite <- !cell_at_cellh.
+      rewrite Hold; [reflexivity|]. intros ->. contradiction.
+  - unfold s'. rewrite redirect_len by exact Hp. rewrite Forall_forall in *. intros a Ha.
+    rewrite redirect_key by exact Hp. apply Hf. apply in_app_or in Ha as [Ha|[->|Ha]]; apply in_or_app; auto.
+    + right. left. reflexivity.
+    + right. right. right. exact Ha.
+  - erewrite map_ext; [|intros a; apply redirect_key; exact Hp].
+    change (pre ++ pr :: e :: l2) with (pre ++ [pr] ++ e :: l2) in Hn. rewrite app_assoc, map_app in Hn. cbn [map] in Hn.
+    apply NoDup_remove_1 in Hn. rewrite <- map_app, <- app_assoc in Hn. exact Hn.
+Qed.
+
+Lemma unlink_pred_ptr_inc s i pre pr e l2 :
+  ptr_inc s -> bin_ok s i (pre ++ pr :: e :: l2) -> ptr_inc (redirect_sh s pr (cnext (cell_at s e))).
+Proof.
+  intros Hi Hok.
+  assert (Hp : pr < length (heap s)). { eapply bin_ok_in; [exact Hok|]. apply in_or_app. right. left. reflexivity. }
+  assert (He : e < length (heap s)). { eapply bin_ok_in; [exact Hok|]. apply in_or_app. right. right. left. reflexivity. }
+  assert (Hpe : cnext (cell_at s pr) = Some e).
+  { destruct Hok as (Hs & _). apply pseg_app_inv in Hs as (m & _ & H2). apply pseg_cons_inv in H2 as [_ H2].
+    apply pseg_cons_inv in H2 as [H2 _]. exact H2. }
+  intros a q Ha Hq. rewrite redirect_len in * by exact Hp. rewrite redirect_cell in Hq by exact Hp.
+  destruct (Nat.eqb_spec a pr) as [->|Hn]; cbn in Hq; [|auto].
+  pose proof (Hi _ _ Hp Hpe). pose proof (Hi _ _ He Hq). lia.
+Qed.
+
+(* (5) CAS a fresh node into the empty bin i *)
+Definition cas_sh (s : shared) (i : nat) (k : N) (v : Z) : shared :=
+  set_bin (alloc_sh s k v) i (Some (length (heap s))).
+
+Lemma cas_cell_old s i k v a : a < length (heap s) -> cell_at (cas_sh s i k v) a = cell_at s a.
+Proof. intros Ha. unfold cas_sh. change (cell_at (set_bin ?x _ _) a) with (cell_at x a). apply cell_alloc_old. exact Ha. Qed.
+Lemma cas_cell_new s i k v : cell_at (cas_sh s i k v) (length (heap s)) = mkCell k v None.
+Proof. unfold cas_sh. change (cell_at (set_bin ?x _ _) ?a) with (cell_at x a). apply cell_alloc_new. Qed.
+Lemma cas_len s i k v : length (heap (cas_sh s i k v)) = S (length (heap s)).
+Proof. unfold cas_sh. cbn [heap set_bin]. apply heap_alloc_len. Qed.
+Lemma cas_frame s i k v : i < length (bins s) -> frame s (cas_sh s i k v) i.
+Proof.
+  intros Hi. split; [|split; [|split]].
+  - intros j Hj. unfold cas_sh. rewrite bin_at_set_bin_other by assumption. reflexivity.
+  - intros a Ha _. apply cas_cell_old. exact Ha.
+  - intros a Ha. unfold keyat. rewrite cas_cell_old by exact Ha. reflexivity.
+  - rewrite cas_len. lia.
+Qed.
+Lemma cas_bin_ok s k v : bini k < length (bins s) -> bin_ok (cas_sh s (bini k) k v) (bini k) [length (heap s)].
+Proof.
+  intros Hi. split; [|split].
+  - unfold cas_sh at 2. rewrite bin_at_set_bin_same by exact Hi. constructor.
+    rewrite <- cell_at_cellh, cas_cell_new. cbn. constructor.
+  - constructor; [|constructor]. rewrite cas_len. split; [lia|]. unfold keyat. rewrite cas_cell_new. reflexivity.
+  - cbn. constructor; [intros []|constructor].
+Qed.
+Lemma cas_ptr_inc s i k v : ptr_inc s -> ptr_inc (cas_sh s i k v).
+Proof.
+  intros Hi a q Ha Hq. rewrite cas_len in *. destruct (Nat.eq_dec a (length (heap s))) as [->|Hn].
+  - rewrite cas_cell_new in Hq. discriminate.
+  - assert (Ha' : a < length (heap s)) by lia. rewrite cas_cell_old in Hq by exact Ha'. specialize (Hi _ _ Ha' Hq). lia.
+Qed.
